@@ -238,6 +238,34 @@ def sigOfCell (g : C15.Grid) (p : List V3) (ci : Nat) : Sig :=
   if g.kind.corners == 4 then sigQuadWith g.kind.sideIdx CBV.Gen.quadAspectPairs (cellPts p cell) nb
   else sigHexWith g.kind.sideIdx CBV.Gen.hexAspectPairs (cellPts p cell) nb
 
+/-! ### the 24 rotations of the hexahedron (used by the theorems and by the harness' self check) -/
+
+/-- blockMesh numbering: local coordinates (x, y, z) of corner `c` -/
+def bitsL (c : Nat) : List Bool := [c % 4 == 1 || c % 4 == 2, c % 4 == 2 || c % 4 == 3, decide (c ≥ 4)]
+
+def cornerOf (b : List Bool) : Nat :=
+  (if b.getD 2 false then 4 else 0) +
+    (match b.getD 0 false, b.getD 1 false with
+      | false, false => 0 | true, false => 1 | true, true => 2 | false, true => 3)
+
+/-- the corner permutation of the signed axis permutation `(π, f)`: new corner `k` (coordinates `b`)
+    is the old corner whose coordinate along axis `π[a]` is `b[a]`, reflected when `f[a]` -/
+def symOf (π : List Nat) (f : List Bool) : List Nat :=
+  (List.range 8).map (fun k =>
+    let b := bitsL k
+    cornerOf ((List.range 3).map (fun a' =>
+      let a := π.idxOf a'
+      xor (b.getD a false) (f.getD a false))))
+
+def evenPerms : List (List Nat) := [[0, 1, 2], [1, 2, 0], [2, 0, 1]]
+def oddPerms : List (List Nat) := [[0, 2, 1], [2, 1, 0], [1, 0, 2]]
+def evenFlips : List (List Bool) := [[false, false, false], [true, true, false], [true, false, true], [false, true, true]]
+def oddFlips : List (List Bool) := [[true, false, false], [false, true, false], [false, false, true], [true, true, true]]
+
+/-- determinant +1: even axis permutation with an even number of reflections, or odd with odd -/
+def rot24 : List (List Nat) :=
+  (evenPerms.flatMap fun π => evenFlips.map (symOf π)) ++ (oddPerms.flatMap fun π => oddFlips.map (symOf π))
+
 /-! ### line protocol -/
 
 def showF (x : Float) : String := toString x.toBits
@@ -266,6 +294,7 @@ def handleGrid (args : List String) : Option String :=
 def handle (op : String) (args : List String) : Option String :=
   match op with
   | "c14.grid" => handleGrid args
+  | "c14.rot24" => if args.isEmpty then some (";".intercalate (rot24.map showNatList)) else none
   | _ => none
 
 end CBV.C14
